@@ -319,11 +319,14 @@ def gen_task(rng, lm, cfg):
     r = rng.random()
     nslots = rng.choice([1, 1, 2, 3, 4, 6]) if r < 0.9 else rng.choice([0, 43, 50])
     if lm == 'MPIRUN' and nslots == 0: nslots = 1      # mpirun without a placement: no host argument at all, not a command
+    if lm in ('MPIRUN', 'MPIEXEC', 'PRTE') and rng.random() < 0.12: nslots = rng.choice([42, 43, 44, 50])   # host list vs host file threshold, every flavour
     if lm in ('FORK', 'SSH', 'RSH'):
         nslots = rng.choice([1, 1, 1, 2, 0]) if lm != 'FORK' else rng.choice([1, 1, 1, 2])
     cpr = rng.choice([1, 1, 2, 3])
     if lm == 'SRUN' and nslots >= 43 and rng.random() < 0.7:
         nodes = list(range(2, 60))
+    if lm != 'SRUN' and lm != 'IBRUN' and nslots >= 42:
+        nodes = list(nodes) + [n for n in range(10, 40) if n not in nodes]      # room for that many ranks
     if lm == 'IBRUN' and rng.random() < 0.5:
         # a placement ibrun can express: ranks on consecutive task slots of the job, from any slot on
         n   = rng.choice([1, 2, 3, 4, 6, 8])
